@@ -1098,6 +1098,7 @@ func (e *c17Env) native(c c17Case, sh c17Shape, stream bool, what string) (c17Re
 }
 
 type c17OAToolCall struct {
+	Index    *int   `json:"index"`
 	ID       string `json:"id"`
 	Type     string `json:"type"`
 	Function struct {
@@ -1191,6 +1192,7 @@ func (e *c17Env) openai(c c17Case, sh c17Shape, stream, failing, tolerateSwallow
 	}
 	r.status = status
 	r.numLits = c17NumLits(raw)
+	seenIdx := map[int]bool{}
 	add := func(ch *c17OAChunk, streamed bool) error {
 		if len(ch.Choices) > 1 {
 			return fmt.Errorf("%s: %d choices", what, len(ch.Choices))
@@ -1212,6 +1214,19 @@ func (e *c17Env) openai(c c17Case, sh c17Shape, stream, failing, tolerateSwallow
 			calls, err := c17OACalls(what, tcs)
 			if err != nil {
 				return err
+			}
+			if streamed {
+				// "the concatenation of the streamed chunks" of an OpenAI stream is defined by the protocol: a client assembles
+				// tool-call deltas by their index, so two calls of one response that carry the same index are fused into one
+				for _, tc := range tcs {
+					if tc.Index == nil {
+						continue
+					}
+					if seenIdx[*tc.Index] {
+						return fmt.Errorf("%s: two tool calls of one streamed response carry index %d (the second is %s): a client that assembles the deltas by index, as the protocol says, fuses them into one call", what, *tc.Index, tc.Function.Name)
+					}
+					seenIdx[*tc.Index] = true
+				}
 			}
 			r.calls = append(r.calls, calls...)
 		}
